@@ -5,6 +5,7 @@ import Driver.Ops.Rematch
 import Driver.Ops.Audit
 import Driver.Ops.Equity
 import Driver.Ops.Price
+import Driver.Ops.Export
 /-! Line-protocol driver of the model: one JSON case per input line, one JSON answer per line.
     To add an op: write `Driver/Ops/<Name>.lean`, import it here, add one line to `opTable`
     (or to `outputTable` for a new output kind of op `run`). -/
@@ -16,7 +17,9 @@ def outputTable : List (String × Ops.OutputFn) := [
   ("balance", Ops.outBalance),
   ("register", Ops.outRegister),
   ("register_all", Ops.outRegisterAll),
-  ("equity", Ops.outEquity)
+  ("equity", Ops.outEquity),
+  ("identity", Ops.outIdentity),
+  ("roundtrip", Ops.outRoundtrip)
 ]
 
 /-- ops -/
